@@ -73,6 +73,26 @@ def from_kani(h, pb, scratch):
     elif kind == 'call2' and len(ints) >= 2:
         expr = '%s(a, b)' % dec[1]
         binds = ['a=int:%d' % ints[0], 'b=int:%d' % ints[1]]
+    elif kind == 'builtin_cases':
+        # find the refuted case by the case id carried in the failed check, then its payload values by position
+        failed = ' '.join(pb.get('failed_checks') or [])
+        off = 0
+        chosen = None
+        for cid, call, cvars, cdoc in dec[1]:
+            if ('case ' + cid) in failed and chosen is None:
+                chosen = (cid, call, cvars, cdoc, off)
+            off += len(cvars)
+        if chosen is None:
+            return None
+        cid, expr, cvars, cdoc, off = chosen
+        h = dict(h, doc=cdoc)
+        for (v, k), val in zip(cvars, vals[off:off + len(cvars)]):
+            if k == 'int':
+                binds.append('%s=int:%d' % (v, i64_of(val['bytes'])))
+            elif k == 'float':
+                binds.append('%s=float:%d' % (v, struct.unpack('<Q', bytes((val['bytes'] + [0] * 8)[:8]))[0]))
+            else:
+                binds.append('%s=bool:%d' % (v, 1 if val['bytes'] and val['bytes'][0] else 0))
     elif kind == 'expr':
         return dec[1](h, vals, scratch)
     else:
